@@ -159,7 +159,11 @@ func findModel(vc *FuncVC, o *Obl, timeoutS int) (string, bool) {
 func paramValues(vc *FuncVC, q string, timeoutS int) ([]string, bool) {
 	var res []string
 	for _, p := range vc.Fn.Params {
-		t := vc.vals[p].T
+		pv, ok := vc.vals[p]
+		if !ok || pv == nil {
+			return nil, false
+		}
+		t := pv.T
 		switch t.Sort {
 		case SInt, SBool, SReal:
 			vs, ok := getValues(q, []string{t.S}, timeoutS)
